@@ -285,6 +285,18 @@ CheckCb(tk, e, tk2) ==
     \cup V(IsGuard(e.m) /\ (proc \/ actv) /\ FullObs => e.cur = survNow,
            "C06", "currentTransition() is not the transition accepted so far in this processing step")
     \cup V0(e.mact2 = e.mact, "C02", "the active state changed while a callback was making requests")
+    \* a request made by the last round of guards and not taken up by a further round: still waiting because the limit is reached,
+    \* or dropped by the duplicate rule - anything else means it was lost (and the transition being applied is an older one)
+    \cup V(FullObs /\ (proc \/ actv) /\ start /\ IsLife(e.m) /\ IsGuard(tk.dm) /\ tk.dpos > 0 /\ tk.lastreq # NoT
+             => IF e.req[1] = tk.lastreq[1] /\ e.req[2] = tk.lastreq[2] THEN tk.rounds >= (IF proc THEN L ELSE L + 1) ELSE IsDup(survNow, tk.lastreq),
+           "C03", "a request made from inside a guard was neither evaluated by a fresh round of guards nor left waiting at the limit")
+    \cup V(FullObs /\ (proc \/ actv) /\ start /\ IsLife(e.m) /\ IsGuard(tk.dm) /\ tk.dpos > 0 /\ tk.lastreq # NoT
+             => IF e.req[1] = tk.lastreq[1] /\ e.req[2] = tk.lastreq[2] THEN tk.rounds >= (IF proc THEN L ELSE L + 1) ELSE IsDup(survNow, tk.lastreq),
+           "C02", "the most recent request, which no guard cancelled, was dropped: an earlier request is being applied")
+    \cup V(FullObs /\ (proc \/ actv) /\ start /\ IsLife(e.m) /\ IsGuard(tk.dm) /\ tk.dpos > 0 /\ tk.lastreq # NoT /\ ~IsDup(survNow, tk.lastreq)
+             /\ ~(e.req[1] = tk.lastreq[1] /\ e.req[2] = tk.lastreq[2]) /\ e.cur[1] = tk.lastreq[1] /\ e.cur[2] = tk.lastreq[2]
+             => e.cur[3] = tk.lastreq[3],
+           "C07", "the transition being applied shows the payload of an earlier request to the same destination instead of the latest one's")
     \cup V(FullObs /\ tk.incall /\ tk.dseq = <<>> /\ tk.dpos = 0 /\ ~IsGuard(e.m) /\ tk.op \notin {"exit", "dtor", "load", "ito", "iwith", "ctor", "enter"}
              => e.req[1] = tk.lastreq[1] /\ e.req[2] = tk.lastreq[2],
            "C02", "a request made earlier is no longer waiting although no processing point was reached since (or a request appeared from nowhere)")
